@@ -26,6 +26,7 @@ type Clause struct {
 	Props []string
 	Line  string // file:line of the contract comment
 	LockInv bool // lock invariant: not part of the caller-visible contract
+	Scope   bool // callsite scope restriction (assumed, listed)
 
 	compiled bool
 	err      error
@@ -389,10 +390,13 @@ func parseContractFile(fset *token.FileSet, f *ast.File, pkgPath string) ([]*Con
 		case "callsite":
 			// callsite <callee-text> <ordinal> requires <expr>
 			parts := strings.SplitN(rest, " ", 4)
-			if len(parts) != 4 || parts[2] != "requires" {
-				return nil, nil, fmt.Errorf("%s: callsite <callee> <ordinal> requires <expr>", ln.pos)
+			if len(parts) != 4 || (parts[2] != "requires" && parts[2] != "scope") {
+				return nil, nil, fmt.Errorf("%s: callsite <callee> <ordinal> requires|scope <expr>", ln.pos)
 			}
 			c := &Clause{Kind: "callsite-requires", Name: parts[0], Ord: parts[1], Text: strings.TrimSpace(parts[3]), Line: ln.pos}
+			// "scope": a stated restriction of what the contract covers (e.g. the kind of input an iteration handles); paths
+			// outside it are not examined. It is an assumption and is listed as such in the evidence.
+			c.Scope = parts[2] == "scope"
 			last = c
 			cur.CallSites[parts[0]+"#"+parts[1]] = append(cur.CallSites[parts[0]+"#"+parts[1]], c)
 		case "ghostparam":
@@ -1183,6 +1187,13 @@ func (ex *Exec) evalSpecFunc(name string, call *ast.CallExpr, st *State) []Value
 			g = namedValue("ghost|net."+name+"0", types.NewSlice(ghostByteT))
 			st.assumeValid(g)
 			st.ghost["net."+name] = g
+		}
+		return []Value{g}
+	case "lastreadok":
+		g, ok := st.ghost["net.lastok"]
+		if !ok {
+			g = boolV(mkVar("ghost|net.lastok0", sortBool))
+			st.ghost["net.lastok"] = g
 		}
 		return []Value{g}
 	case "lastreadn", "lastreadwant":
